@@ -83,11 +83,15 @@ func raceBegin() {
 var frameRe = regexp.MustCompile(`^  (\S+)\(\)$`)
 
 // topFrames returns, for each access of a report, the first non-runtime function.
+// topFrames returns, for each of the two accesses of a report, the innermost frame that is not in the Go
+// runtime: its function name, and whether its source file belongs to the library under test. Closures of
+// generic library functions that were inlined into a harness function carry the harness function's name
+// (checks.f.Share[...].func1), so the file decides, not the name.
 func topFrames(report string) []string {
 	var tops []string
 	lines := strings.Split(report, "\n")
 	in := false
-	for _, ln := range lines {
+	for i, ln := range lines {
 		switch {
 		case strings.HasPrefix(ln, "Read at ") || strings.HasPrefix(ln, "Write at ") || strings.HasPrefix(ln, "Previous read at ") || strings.HasPrefix(ln, "Previous write at ") ||
 			strings.HasPrefix(ln, "Atomic ") || strings.HasPrefix(ln, "Previous atomic "):
@@ -100,12 +104,41 @@ func topFrames(report string) []string {
 				if strings.HasPrefix(fn, "runtime.") || strings.HasPrefix(fn, "sync.") || strings.HasPrefix(fn, "sync/atomic.") || strings.HasPrefix(fn, "internal/") {
 					continue
 				}
+				if i+1 < len(lines) && libraryFile(strings.TrimSpace(lines[i+1])) && !strings.HasPrefix(fn, "github.com/samber/ro") {
+					// name it as the library function it is: drop the harness prefix up to the first exported ro name
+					fn = "github.com/samber/ro." + libName(fn)
+				}
 				tops = append(tops, fn)
 				in = false
 			}
 		}
 	}
 	return tops
+}
+
+// libraryFile: the frame's "file:line +0x.." line points into the repository under test (not its tests).
+func libraryFile(loc string) bool {
+	if i := strings.IndexByte(loc, ':'); i >= 0 {
+		loc = loc[:i]
+	}
+	if strings.HasSuffix(loc, "_test.go") {
+		return false
+	}
+	return strings.HasPrefix(loc, "/repo/") || strings.Contains(loc, "/ulule-limiter/")
+}
+
+// libName keeps the part of an inlined closure's name that starts at the library function.
+func libName(fn string) string {
+	if i := strings.LastIndexByte(fn, '/'); i >= 0 {
+		fn = fn[i+1:]
+	}
+	parts := strings.Split(fn, ".")
+	for i, p := range parts {
+		if i > 0 && p != "" && p[0] >= 'A' && p[0] <= 'Z' {
+			return strings.Join(parts[i:], ".")
+		}
+	}
+	return fn
 }
 
 func raceReports(group string) []Violation {
@@ -125,6 +158,9 @@ func raceReports(group string) []Violation {
 			}
 			if len(lib) == 0 {
 				raceForeign++
+				if dumpCases != "" {
+					fmt.Fprintf(os.Stderr, "DUMP foreign race report, innermost frames: %v\n", tops)
+				}
 				continue
 			}
 			all := make([]string, 0, len(tops))
